@@ -9,7 +9,6 @@ import (
 	"runtime/debug"
 	"runtime/pprof"
 	"sort"
-	"strconv"
 	"strings"
 	"time"
 
@@ -29,7 +28,7 @@ func rec(msg, tag, aux, lvl string) *Rec {
 func recID(r *Rec) string {
 	parts := make([]string, len(r.F))
 	for i, f := range r.F {
-		parts[i] = strconv.Quote(f)
+		parts[i] = abbrev(f) // strconv.Quote for values up to 120 bytes
 	}
 	u := ""
 	if r.Unescaped {
@@ -42,6 +41,18 @@ type enumerator struct {
 	ctx *seq.Ctx
 	// rekey, when set, maps the generic violation key of a (program, record) case to a more specific class
 	rekey func(prog []*Step, in *Rec, key string) string
+	// invalid marks the configurations the menus contain as deliberately invalid (expected to be rejected by the loader)
+	invalid map[*Step]bool
+}
+
+// bad marks a single-step program as deliberately invalid: the documentation forbids it (unknown field, empty
+// pattern, percentage out of 1..100, ...). Only such programs may be rejected without a finding.
+func (e *enumerator) bad(s *Step) []*Step {
+	if e.invalid == nil {
+		e.invalid = map[*Step]bool{}
+	}
+	e.invalid[s] = true
+	return one(s)
 }
 
 // emit passes one (program, record) case to the driver. in2 is the record sent second through the same instance.
@@ -91,7 +102,14 @@ func (e *enumerator) leafGroupCustom(name string, configs [][]*Step, values func
 		if _, err := loadReal(RenderYAML(prog)); err != nil {
 			ctx.Group("rejected-config/" + name)
 			msg := err.Error()
-			ctx.Case("rejected/"+name+"/"+compactSteps(prog), false, RenderYAML(prog)+"rejected: "+msg, func() (string, string) { return "", "" })
+			expected := len(prog) == 1 && e.invalid[prog[0]]
+			ctx.Case("rejected/"+name+"/"+compactSteps(prog), false, RenderYAML(prog)+"rejected: "+msg, func() (string, string) {
+				if !expected {
+					// a configuration of the valid menu that the loader refuses would silently remove all its cases from the run
+					return "valid-configuration-rejected:" + name, "the configuration path rejected a configuration generated as valid (documented syntax): " + msg
+				}
+				return "", ""
+			})
 			continue
 		}
 		ctx.Group(name)
@@ -141,6 +159,9 @@ func enumerate(ctx *seq.Ctx) {
 	e.contexts()
 	e.nesting()
 	e.sampling()
+	e.longValues()
+	e.byteSweeps()
+	e.histories()
 	if len(tolerance) > 0 {
 		keys := make([]string, 0, len(tolerance))
 		for k := range tolerance {
@@ -193,7 +214,7 @@ func main() {
 			"defs.InputLogMaxMessageBytes (capacity hint of the addFields scratch buffer) is lowered from 1 MiB to 4 KiB by the harness for speed",
 		},
 		Enumerate:        enumerate,
-		QuickDeadline:    4 * time.Minute,
+		QuickDeadline:    20 * time.Minute,
 		ThoroughDeadline: 45 * time.Minute,
 	})
 }
